@@ -205,10 +205,15 @@ def run_shard(desc):
             for n in range(0, 4):
                 if n == len(params):
                     continue
-                for shape in ("1", "@.a", "@.*"):
+                for shape in ("1", "@.a", "@.*", "!@.a", "(@.a == 1)"):
                     call = f"{name}({', '.join([shape] * n)})"
                     for q in positions(call)[:7]:
                         do(q)
+                    if n >= 2 and shape in ("!@.a", "(@.a == 1)"):
+                        # plain arguments first, the surplus one is a logical expression
+                        call = f"{name}({', '.join(['@.a'] * (n - 1) + [shape])})"
+                        for q in positions(call)[:3]:
+                            do(q)
         # comparisons between every pair of operand shapes (singular comparands only)
         ops = ["1", "'s'", "null", "@", "@.a", "@[0]", "$.a[0]", "@.*", "@..a", "@[0:1]", "@['a','b']",
                "@[?@.a]", "$", "f_v()", "f_l()", "f_n()", "length(@)", "count(@.*)", "value(@.*)",
